@@ -46,7 +46,7 @@ CHECKS = {
              "Trusted: TLC 1.8, Dechunk.tla (Ref written from RFC 9112), Python zlib for the inflate dictionary. Only well-formed bodies without chunk extensions are in scope."),
     "C13": c("parallel", "TLC over all work-list pairs and interleavings of two Decode instances (Parallel.tla: TablesConst, HistoryFree) + TLC-generated schedules driving a deterministic thread scheduler on the real code; every result judged history-free by DecodeJudge",
              "Histories of up to 3 operations over 8 payload classes and three entry points run in one process with table digests after every operation; 2-4 threads follow TLC-generated schedules at function-call granularity plus a free-running stress at 1 us switch interval; every single result is judged by the specification, which knows no history.", "3.7, 4/C13",
-             "Trusted: TLC 1.8, Decode.tla, threading.settrace as yield-point mechanism (call and line granularity, systematic one-preemption schedules). Bytecode-level pre-emption is only sampled (stress run)."),
+             "Trusted: TLC 1.8, Decode.tla, threading.settrace / sys.monitoring as yield-point mechanisms (call, line and bytecode-instruction granularity; systematic one-preemption schedules). Multi-preemption schedules below call granularity are sampled."),
     "C14": c("message", "TLC action property Frozen on Lifecycle.tla + TLC-judged assignment histories with full snapshots",
              "The life-cycle spec is model-checked for every name and operation order; on real messages every attempted assignment must raise RTCMMessageError and the post-snapshot must equal the state the spec derives from the payload.", "3.5, 4/C14"),
     "C15": c("message", "TLC exhaustive over 4096 numbers x 256 sub-types (MC_Identity) + exhaustive header sweep on the real code judged by TLC",
